@@ -87,6 +87,11 @@ CLAIMED["C10"] = dict(
     text="Exploration: hundreds of thousands of systematically and randomly mutated valid payloads (extreme count/length fields, truncations at every offset of small payloads, deep nesting, invalid UTF-8, splices) per run; an input may only yield a value or an error - a panic, an abort, a stack overflow (worker death attributed to the exact input), a single allocation request or a peak above 64*len+1MiB, or super-linear allocator work is a violation, as is a decoded value that cannot be encoded again.",
     design="DESIGN.md section 3 C10")
 
+CLAIMED["C20"] = dict(
+    technique="runtime monitoring: quotations and links dereferenced on every replica after every step and compared with the visible elements between the boundary units (hook H2); observer counters",
+    text="Exploration: quotations over text / XML-text / array ranges of every bound form and links to map entries are created inside hostile multi-replica histories and dereferenced on every replica that has integrated them after every step; the result must be exactly the currently visible elements between the boundary units (boundaries as the range named them), links must follow the entry's current value and yield nothing once it is removed, creating a quotation must leave the source unchanged, replicas must converge. The observer clause is monitored on the creating replica; its violations are recorded as known finding D23.",
+    design="DESIGN.md section 3 C20")
+
 NOT_YET = {}
 
 
